@@ -490,7 +490,10 @@ def run(ctx):
     ann = next((a.annotation for a in cv.node.args.args if a.arg == "xlsform"), None)
     members = {n.id for n in ast.walk(ann) if isinstance(n, ast.Name)} | {n.attr for n in ast.walk(ann) if isinstance(n, ast.Attribute)} if ann is not None else set()
     tested = set()
-    for fn in (gdd, ctx.func("pyxform.xls2json_backends:get_xlsform", "C12.R4")):
+    # (the tests may sit in helpers of the dispatcher: every function reachable from the two entry points is read)
+    from ..callgraph import CallGraph as _CG0
+    disp_reach = _CG0(repo, ctx.consts.interp).reachable(["pyxform.xls2json_backends:get_definition_data", "pyxform.xls2json_backends:get_xlsform"])
+    for fn in [f_ for f_ in repo.all_functions() if f_.fq in disp_reach and f_.module.name == "pyxform.xls2json_backends"]:
         for c in walk_own(fn.node):
             if isinstance(c, ast.Call) and call_name(c) == "isinstance" and len(c.args) == 2:
                 tested |= {n.id for n in ast.walk(c.args[1]) if isinstance(n, ast.Name)}
